@@ -128,32 +128,40 @@ def run(ctx, rep):
     rep.rule('D5.nomutate', "sample() does not modify the caller's conditions")
     fn = gauss.gm_method(ctx, 'sample')
     cls = prog.cls(gauss.GM)
-    # D1
-    from .c01 import _output_stores
-    dname, ret, stores = _output_stores(fn)
-    fixed = 0
-    for st in stores:
-        gs = guard_chain(st, fn.node)
-        member = None
-        for test, pol in gs:
-            for t in ast.walk(test):
-                if isinstance(t, ast.Compare) and len(t.ops) == 1 and isinstance(t.ops[0], ast.In) \
-                        and isinstance(t.comparators[0], ast.Name) and t.comparators[0].id == 'conditions':
-                    member = (t, pol)
-        if member is None or not member[1]:
+    # D1: on every path on which the loop column is one of the conditions, the stored value is the given value
+    from ..boolcond import atoms_of, f_and, f_not, satisfiable
+    _fn, col_stores = gauss.sample_column_stores(ctx)
+    seen_given = False
+    for st, k, v, reach, loop in col_stores:
+        if reach is None:
+            rep.undecided('D1.fixed', fn, st, 'reach condition of the column store not derivable')
             continue
-        fixed += 1
-        keyv = member[0].left
-        v = st.value
-        good = (isinstance(v, ast.Call) and prog.resolve(fn.module, v.func) == 'numpy.full' and len(v.args) >= 2
-                and isinstance(v.args[0], ast.Name) and v.args[0].id == 'num_rows'
-                and isinstance(v.args[1], ast.Subscript) and isinstance(v.args[1].value, ast.Name)
-                and v.args[1].value.id == 'conditions' and ast.dump(v.args[1].slice) == ast.dump(keyv)
-                and ast.dump(st.targets[0].slice) == ast.dump(keyv))
-        rep.check('D1.fixed', fn, st, good, 'conditioned column = np.full(num_rows, conditions[column])',
-                  'a conditioned column is not filled with the given value')
-    if not fixed:
-        rep.bad('D1.fixed', fn, fn.node.name, 'no branch fills conditioned columns with the given values', construct='conditioned branch')
+        member = [a for a in atoms_of(reach) if a.startswith('in[') and a.endswith('|conditions]')]
+        if not member:
+            continue
+        m = ('atom', member[0])
+        may_cond = satisfiable(f_and(reach, m))       # reachable for a conditioned column
+        may_free = satisfiable(f_and(reach, f_not(m)))  # reachable for a free column
+        is_given = isinstance(v, tuple) and v and v[0] == 'given'
+        if may_cond and not may_free:
+            seen_given = seen_given or is_given
+            good = is_given and isinstance(st.value, ast.Call) and prog.resolve(fn.module, st.value.func) == 'numpy.full' \
+                and st.value.args and isinstance(st.value.args[0], ast.Name) and st.value.args[0].id == 'num_rows'
+            if v is TOP:
+                rep.undecided('D1.fixed', fn, st, 'value stored for a conditioned column not derivable')
+            else:
+                rep.check('D1.fixed', fn, st, good, 'conditioned column = np.full(num_rows, conditions[column])',
+                          'a conditioned column is not filled with the given value')
+        elif may_cond and may_free and not is_given:
+            pass  # a store shared by both kinds of column: decided by the free/conditioned specific stores
+        elif is_given and may_free:
+            rep.bad('D1.fixed', fn, st, 'a column that is not conditioned on can receive a conditioning value')
+    if not seen_given:
+        anyc = [1 for st, k, v, reach, loop in col_stores if reach is not None and any(a.startswith('in[') for a in atoms_of(reach))]
+        if anyc:
+            rep.bad('D1.fixed', fn, fn.node.name, 'no path fills a conditioned column with its given value', construct='conditioned branch')
+        else:
+            rep.undecided('D1.fixed', fn, fn.node.name, 'how conditioned columns are filled was not recognised', construct='conditioned branch')
     gauss.report_order(ctx, rep, 'D2.align', ['_get_normal_samples', '_get_conditional_distribution'], floor=8)
     # D3
     cd = gauss.gm_method(ctx, '_get_conditional_distribution')
